@@ -108,7 +108,9 @@ def extra(pid: str, rc: int, repo: Optional[str] = None) -> int:
     ev['coverage']['self_validation'] = {
         'entries': len(res),
         'must_fire': sum(1 for r in res if r['expect'] == 'fire'),
-        'must_stay_silent': sum(1 for r in res if r['expect'] == 'silent'),
+        'must_stay_silent': sum(1 for r in res if r['expect'] in ('silent', 'no-alarm', 'open')),
+        'answered_cannot_read': [r['id'] for r in res if r['expect'] == 'no-alarm' and r.get('rc') == 2],        # refactorings/UNREADABLE.json
+        'listed_open_false_alarms': [r['id'] for r in res if r['expect'] == 'open' and r.get('open_state') == 'still-alarms'],   # refactorings/OPEN.json
         'not_as_expected': [{k: r.get(k) for k in ('id', 'expect', 'outcome', 'detail')} for r in bad],
         'ids': [r['id'] for r in res],
         'rule': 'each entry edits a scratch copy of the CURRENT tree by one exact text replacement and re-runs this property\'s check on it',
